@@ -8,5 +8,5 @@ REGISTRY["C26"] = l2("C26", "dev", ["harness/l3/dev_driver.c", "sim/dev/simdev_p
      "the call sequences are produced by the real device_gpu.c / transfer_gpu.c / DTD over 1-3 simulated accelerators (engine of C43)"],
     "as C43 (same engine and workloads); coherence model checked at every call: at most one OWNED copy, transfer requested iff the target is not up to date (accesses that read), the source named holds the newest valid version, "
     "a write access makes the target the owner",
-    knobs=["prop=26"], engine="simcore-L3", variant="Bdev", prebuild=_dev_prebuild_c26,
+    knobs=["prop=26"] + _os.environ.get("DEV_KNOBS", "").split(), engine="simcore-L3", variant="Bdev", prebuild=_dev_prebuild_c26,
     stub=L2_STUB + ["accelerator back-end (sim/dev/simdev.c)"])
